@@ -414,6 +414,13 @@ func genSigForks(c *ctx, emit func(ev)) {
 					for rep := 0; rep < c.tierInt(1, 6); rep++ {
 						emit(ev{"op": "Cross", "curve": cname, "kind": kind, "digest": B(randBytes(r, dl))})
 					}
+					if dl > 0 { // digests with a forced leading byte (all-zero top bits / all-one top bits)
+						for _, top := range []byte{0x00, 0x01, 0x7f, 0x80, 0xff} {
+							d := randBytes(r, dl)
+							d[0] = top
+							emit(ev{"op": "Cross", "curve": cname, "kind": kind, "digest": B(d)})
+						}
+					}
 				}
 			}
 			// entropy scripts: every failure position x chunking x error delivery x error kind
@@ -495,6 +502,20 @@ func genSigForks(c *ctx, emit func(ev)) {
 						}
 						emit(ev{"op": "EdVerify", "A": B(ab), "sig": B(append(append([]byte{}, rb...), sb...)), "msg": B(msg),
 							"valid": sn == "canonical" && rn == "honest" && an == "honest", "cls": sn + "/" + rn + "/" + an})
+					}
+				}
+			}
+			// small multiples of the base point as R under identity-like keys: [S]B = R + [k]A holds for S = s,
+			// so S = s + L (non-canonical, low bytes near L) must be refused for exactly the structural reason
+			if rep == 0 {
+				bp, _ := edDecode(mustHex("5866666666666666666666666666666666666666666666666666666666666666"))
+				for sv := 0; sv <= 40; sv++ {
+					Rs := edEncode(edScalarMult(big.NewInt(int64(sv)), bp))
+					for _, ah := range []string{edSmallOrder[0], "eeffffffffffffffffffffffffffffffffffffffffffffffffffffffffffff7f", "0100000000000000000000000000000000000000000000000000000000000080"} {
+						for _, sval := range []*big.Int{big.NewInt(int64(sv)), new(big.Int).Add(L, big.NewInt(int64(sv))), new(big.Int).Add(new(big.Int).Lsh(L, 1), big.NewInt(int64(sv)))} {
+							emit(ev{"op": "EdVerify", "A": B(mustHex(ah)), "sig": B(append(append([]byte{}, Rs...), sEnc(sval)...)), "msg": B(msg),
+								"valid": false, "cls": fmt.Sprintf("smallS/%d", sv)})
+						}
 					}
 				}
 			}
